@@ -447,8 +447,50 @@ func defaultTagLemmas(prog *Program) []*lemmaQuery {
 	return out
 }
 
+// wireNameLemmas: a receiver description is a JSON object {"type": ..., "data": {...}} whose data is read by
+// the transport plugin of that type. What the sender writes for an address given as a URL (schemeToRecv: the
+// keys "url", "group", "id" - pinned by its contract) and what clients write by hand is decoded by struct
+// tags; a tag that names another key silently ignores the client's value. One structural obligation per field.
+func wireNameLemmas(prog *Program) []*lemmaQuery {
+	want := []struct{ pkg, typ, field, name string }{
+		{"pkg/receiver", "Recv", "Type", "type"},
+		{"pkg/receiver", "Recv", "Data", "data"},
+		{"internal/app/plugins/http", "Data", "Url", "url"},
+		{"internal/app/plugins/http", "Data", "Headers", "headers"},
+		{"internal/app/plugins/poll", "Data", "Group", "group"},
+		{"internal/app/plugins/poll", "Data", "Id", "id"},
+		{"pkg/message", "Mesg", "Type", "type"},
+		{"pkg/message", "Mesg", "Root", "root"},
+		{"pkg/message", "Mesg", "Leaf", "leaf"},
+	}
+	var out []*lemmaQuery
+	for _, w := range want {
+		ok := false
+		detail := "no such field"
+		if pp := prog.ppkg[repoModule+"/"+w.pkg]; pp != nil && pp.Types != nil {
+			if obj := pp.Types.Scope().Lookup(w.typ); obj != nil {
+				if st, isStruct := obj.Type().Underlying().(*types.Struct); isStruct {
+					for i := 0; i < st.NumFields(); i++ {
+						if st.Field(i).Name() == w.field {
+							detail = st.Tag(i)
+							name := strings.Split(reflect.StructTag(st.Tag(i)).Get("json"), ",")[0]
+							ok = name == w.name
+						}
+					}
+				}
+			}
+		}
+		out = append(out, structural(fmt.Sprintf("%s.%s is read from and written to the JSON key %q of the wire format", w.typ, w.field, w.name), w.pkg+":"+w.typ+"."+w.field, ok, detail))
+	}
+	return out
+}
+
 func extraObligations(prog *Program, prop, tier string) []*lemmaQuery {
 	out := extraObligations0(prog, prop, tier)
+	switch prop {
+	case "C19", "C20", "C18", "C08":
+		out = append(out, wireNameLemmas(prog)...)
+	}
 	switch prop {
 	case "C13", "C08", "C12", "C18", "C19":
 		// timeouts, queue sizes and worker counts of the subsystems come from these defaults
